@@ -12,7 +12,7 @@ EXPLANATION = (
     "network roles decided by dependence on the `policy` / `target_policy` parameters; C07.2 SAC target normal form == "
     "r + gamma*(min(q1_tgt,q2_tgt)(s',a') - alpha*logpi(a'))*NT with (a', logpi) items of one action_and_log_prob call on s'; "
     "C07.3 the non-terminal mask is the Boolean function ~done | timeout (truth-table canonical form) in both siblings; "
-    "C07.6 composed with the collector's stored flags (AbstractOffPolicyAlgorithm.step) the mask is ~terminal; C07.4 gradient scope: every filter_value_and_grad differentiates parameter 0 only, targets and target networks arrive "
+    "C07.7 ReplayBuffer.add writes reward, done, timeout and successor observation of one transition at one ring index (rows the target combines belong together); C07.6 composed with the collector's stored flags (AbstractOffPolicyAlgorithm.step) the mask is ~terminal; C07.4 gradient scope: every filter_value_and_grad differentiates parameter 0 only, targets and target networks arrive "
     "through other parameters, actor update does not reassign critics; C07.5 both critics regress onto one target node."
 )
 ASSUMPTIONS = [
@@ -276,5 +276,10 @@ def check(s):
         rews = [x for x in walk(("tuple", tuple(v for v in o["args"].values() if v is not None))) if isinstance(x, tuple) and x and x[0] == "call" and x[1] == ("attr", ("param", "env"), "reward")]
         s.ob("C07.6", o["con"], len(rews) == 1 and o["args"].get("reward") == rews[0], "the reward r of the target is the step's env.reward result, stored unmodified", o["loc"],
              key="collector-reward", detail=show(o["args"].get("reward", NONE), maxlen=160))
-    for r, n in (("C07.1", 4), ("C07.2", 8), ("C07.3", 12), ("C07.4", 12), ("C07.5", 1), ("C07.6", 6)):
+    # ---------------------------------------------------------------- C07.7 the buffer keeps the tuple (r, done, timeout, s') together
+    # The target combines batch.rewards, batch.dones, batch.timeouts and batch.next_observations row by row: ReplayBuffer.add must
+    # write all of them at one ring index (a flag written at another slot pairs a transition with a stale done/timeout flag).
+    from .C06 import check_add
+    check_add(s, "C07.7", "C07.7")
+    for r, n in (("C07.1", 4), ("C07.2", 8), ("C07.3", 12), ("C07.4", 12), ("C07.5", 1), ("C07.6", 6), ("C07.7", 40)):
         s.floor(r, n)
